@@ -217,7 +217,8 @@ def build(n):
     cls = dataclass_cls([k for k, _ in n['items']], n['statics'])
     return cls(**{k: build(v) for k, v in n['items']})
   if t == 'ts':
-    params = build(n['params']) if float_only(n['params']) else {
+    params = build(n['params']) if (float_only(n['params']) and n['params'][
+        't'] in ('dict', 'fdict')) else {
         'w': jnp.ones((2,), jnp.float32)}
     tx = {'sgd': optax.sgd(0.1), 'adam': optax.adam(0.1),
           'momentum': optax.sgd(0.1, momentum=0.9)}[n['tx']]
